@@ -124,20 +124,21 @@ def step (st : St) (tok : List String) (_line : String) (impl : Option String) :
     match byteArg x, byteArg c, natsOfHex cs with
     | some x, some c, some cs => (st, hexOfNats [evalPoly x c cs], judge (ShamirMonitor.judgeEval x c cs))
     | _, _, _ => (st, "bad-op", "ok")
-  | ["split", sec, t, n, _rng] =>
+  | ["split", sec, t, n, rng] =>
     match natsOfHex sec, byteArg t, byteArg n with
     | some sec, some t, some n =>
       let secret := (sec ++ List.replicate 32 0).take 32
-      let printed := impl.bind fun i => (ShamirMonitor.okPayload i).bind ShamirMonitor.parseShares
+      let printed := impl.bind ShamirMonitor.splitShares
+      let constStream := rng.startsWith "z" || rng.startsWith "k"
       let cs := match printed with
         | some shares => if t ≥ 1 && shares.length ≥ t then recoverCoeffs 32 t shares else #[]
         | none => #[]
       let out := split (rdOf t cs) secret t n
       let (verdict, valid) := match impl with
-        | some i => ShamirMonitor.judgeSplit secret t n i
+        | some i => ShamirMonitor.judgeSplit secret t n constStream i
         | none => ("ok", false)
       let shares := match out with | .ok l => l | _ => []
-      ({ st with secret := secret, t := t, n := n, shares := shares, printed := printed.getD [], valid := valid }, fmtOutcome fmtShares out, verdict)
+      ({ st with secret := secret, t := t, n := n, shares := shares, printed := printed.getD [], valid := valid }, fmtOutcome (fun l => fmtShares l ++ s!" draws={drawsConsumed Gen.C10.kDrawPerByte 32 t}") out, verdict)
     | _, _, _ => (st, "bad-op", "ok")
   | ["combsel", t, ps] =>
     match byteArg t, parsePositions ps with
